@@ -18,6 +18,7 @@ def run(tier):
     fam = [("effects", ALL, 3, 600, 5000, 2), ("deep", ["ints", "bool", "str", "enum", "opt", "rec", "list", "loops", "calls", "ret", "fstr"], 4, 200, 2000, 2)]
     return semlib.run_sem_check(
         PID, tier, fam,
+        extra_cases=[("match", semlib.match_cases())],
         rule=("cases = recorded native executions of seeded random effectful programs; distinct = distinct (source, "
               "inputs); non-trivial = the program makes host calls from nested positions (every generated program does; "
               "counted when its source is longer than one statement)"),
